@@ -2,8 +2,9 @@
 import json
 import os
 import re
+import subprocess
 
-from common import standard_prologue, run_sharded, run_hx, run_drv, enc, dec, sh, HX, DRV, VERIF, LEAN
+from common import standard_prologue, run_sharded, run_hx, run_drv, enc, dec, sh, HX, DRV, OKANE, VERIF, LEAN
 
 CLAIM = {
     "technique": ("Lean 4 theorems about a character-exact model of core/src/syntax/display.rs + format.rs (all entry kinds; "
@@ -28,8 +29,9 @@ CLAIM = {
 THEOREMS = [
     "Okane.Print.C19_indent", "Okane.Print.C19_indent_text", "Okane.Print.C19_gap", "Okane.Print.C19_column",
     "Okane.Print.C19_column_display", "Okane.Print.C19_column_std", "Okane.Print.C19_fallback", "Okane.Print.C19_balance",
-    "Okane.Print.C19_balance_same_column", "Okane.Print.C19_blank", "Okane.Print.alignment_le_length",
-    "Okane.Print.trailing_no_underflow", "Okane.Print.std_numOK", "Okane.Print.std_symOK", "Okane.Print.std_numNoLF",
+    "Okane.Print.C19_balance_same_column", "Okane.Print.C19_balance_fallback", "Okane.Print.C19_blank",
+    "Okane.Print.format_writes_prefix", "Okane.Print.alignment_le_length", "Okane.Print.trailing_no_underflow",
+    "Okane.Print.numericPart_amt", "Okane.Print.std_numOK", "Okane.Print.std_symOK", "Okane.Print.std_numNoLF",
     "Okane.Print.entryLines_nlf",
 ]
 
@@ -407,7 +409,7 @@ def entry_line_count(e):
     return 1 + len(e[7]) + sum(1 + len(p[5]) for p in e[6])
 
 
-def oracle(entries, out, meas_all, with_fmt_rule=True):
+def oracle(entries, out, meas_all):
     """C19's statement on the real printed text `out` of `entries`.  Returns (failures, facts list)."""
     fails = []
     facts_all = []
@@ -675,7 +677,7 @@ def tree_random_cases(chk, W, count):
 
     for _ in range(count):
         entries = []
-        precs = dict((c, rng.randint(0, 6)) for c in rng.sample(COMMS, rng.randint(0, 3)))
+        precs = dict((c, rng.choice([0, 1, 2, 3, 4, 5, 6, 6, 10, 20, 27, 28, 29, 40, 255])) for c in rng.sample(COMMS, rng.randint(0, 3)))
         for _ in range(rng.randint(1, 4)):
             r = rng.random()
             if r < 0.12:
@@ -885,6 +887,30 @@ def run(chk):
     chk.streams["random-trees"] = len(rcases) - len(lcases)
     chk.streams["ligature-sequences (oracle only)"] = len(lcases)
     chk.streams["ledger-texts"] = len(tcases)
+
+    # --- stream 5: the `okane format FILE` process (cli/src/cmd.rs FormatCmd -> cli/src/format.rs -> FormatOptions::format) ----------
+    n_cli = 0 if getattr(chk, "replay", None) else (30 if chk.tier == "quick" else 400)
+    cli_dir = os.path.join(chk.dir, "cli")
+    os.makedirs(cli_dir, exist_ok=True)
+    picked = [(c, p) for c, p in recs if c["mode"] == "text" and "error" not in p][:n_cli]
+    for i, (c, p) in enumerate(picked):
+        path = os.path.join(cli_dir, "case%d.ledger" % i)
+        with open(path, "w", encoding="utf-8", newline="") as f:
+            f.write(c["text"])
+        for sub in (["format"], ["primitive", "format"]) if i % 4 == 0 else (["format"],):
+            pr = subprocess.run([OKANE] + sub + [path], stdout=subprocess.PIPE, stderr=subprocess.PIPE, timeout=60)
+            got = pr.stdout.decode("utf-8", "replace")
+            chk.case(("cli", " ".join(sub), c["line"]))
+            chk.traces += 1
+            chk.count("cli: okane %s -> exit %s" % (" ".join(sub), "0" if pr.returncode == 0 else "non-zero"))
+            want_ok = p["status"] == "ok"
+            if got != p["fmt"] or (pr.returncode == 0) != want_ok:
+                chk.disagreements += 1
+                chk.violation("`okane %s FILE` does not print what FormatOptions::format returns in-process" % " ".join(sub),
+                              {"stream": "c19 cli", "mode": "text", "case": c["line"], "file": path, "stdout": got, "in_process": p["fmt"],
+                               "exit": pr.returncode, "stderr": pr.stderr.decode("utf-8", "replace")[-500:],
+                               "rerun": "%s %s %s" % (OKANE, " ".join(sub), path)}, no_failing_input=True, tag="corr")
+    chk.streams["okane format (process)"] = len(picked)
 
     sampled = set()
     for (c, p), m in zip(recs, model_out):
